@@ -71,6 +71,10 @@ LinePrefixOK(x, c, ws) == LooseEq(x, StrictLP(c, ws, FALSE), FALSE)
 (* the same with Python's wider notion of a line boundary (only consulted for the ambiguity note)         *)
 LinePrefixExoticOK(x, c, ws) == LooseEq(x, StrictLP(c, ws, TRUE), TRUE)
 
+(* I-layer: parser.autoindent takes  prefix = token.value[:-3]  where the begin token's value is what the   *)
+(* lexer alternative `[ \t]*{%\*` / `[ \t]*{{\*` matched: the blanks followed by the three marker characters.   *)
+AutoindentPrefix(tokval) == SubSeq(tokval, 1, Len(tokval) - 3)
+
 (* ---------------------------------------------------------------------------------------------------- *)
 (* marker template  pre ws {%* construct %} post   vs. plain template  pre {% construct %} post            *)
 (* pre is literal text rendered verbatim; post is literal text of which the construct's end tag may have   *)
